@@ -332,12 +332,13 @@ class Graph:
         self._add_nodes_to_graph(G, nodes)
 
         output_to_sources = self._collect_output_sources(nodes)
+        output_to_source = {k: v[0] for k, v in output_to_sources.items()}
 
         if self._explicit_edges is not None:
             # Explicit mode: user-declared data edges
             self._add_explicit_data_edges(G, self._explicit_edges)
             self._add_control_edges(G, nodes)
-            self._add_ordering_edges(G, nodes, output_to_sources)
+            self._add_ordering_edges(G, nodes, output_to_source)
             validate_output_conflicts(
                 G,
                 nodes,
@@ -346,9 +347,9 @@ class Graph:
             )
         else:
             # Auto-inference mode (default)
-            self._add_data_edges(G, nodes, output_to_sources)
+            self._add_data_edges(G, nodes, output_to_source)
             self._add_control_edges(G, nodes)
-            self._add_ordering_edges(G, nodes, output_to_sources)
+            self._add_ordering_edges(G, nodes, output_to_source)
             validate_output_conflicts(G, nodes, output_to_sources)
 
         return G
@@ -364,7 +365,7 @@ class Graph:
         self,
         G: nx.DiGraph,
         nodes: list[HyperNode],
-        output_to_sources: dict[str, list[str]],
+        output_to_source: dict[str, str],
     ) -> None:
         """Infer data edges by matching parameter names to output names.
 
@@ -378,8 +379,8 @@ class Graph:
         edge_values: dict[tuple[str, str], list[str]] = defaultdict(list)
         for n in nodes:
             for param in n.inputs:
-                for source in output_to_sources.get(param, ()):
-                    edge_values[(source, n.name)].append(param)
+                if param in output_to_source:
+                    edge_values[(output_to_source[param], n.name)].append(param)
 
         G.add_edges_from((src, dst, {"edge_type": "data", "value_names": names}) for (src, dst), names in edge_values.items())
 
@@ -409,7 +410,7 @@ class Graph:
         self,
         G: nx.DiGraph,
         nodes: list[HyperNode],
-        output_to_sources: dict[str, list[str]],
+        output_to_source: dict[str, str],
     ) -> None:
         """Add ordering edges for wait_for dependencies.
 
@@ -419,17 +420,18 @@ class Graph:
         """
         for node in nodes:
             for name in node.wait_for:
-                # (validation catches missing producers)
-                for producer in output_to_sources.get(name, ()):
-                    if producer == node.name:
-                        continue  # Skip self-loops
-                    if not G.has_edge(producer, node.name):
-                        G.add_edge(
-                            producer,
-                            node.name,
-                            edge_type="ordering",
-                            value_names=[name],
-                        )
+                producer = output_to_source.get(name)
+                if producer is None:
+                    continue  # Validation catches missing producers
+                if producer == node.name:
+                    continue  # Skip self-loops
+                if not G.has_edge(producer, node.name):
+                    G.add_edge(
+                        producer,
+                        node.name,
+                        edge_type="ordering",
+                        value_names=[name],
+                    )
 
     def bind(self, **values: Any) -> Graph:
         """Bind default values. Returns new Graph (immutable).
